@@ -28,6 +28,9 @@ NPROC = int(os.environ.get("VERIF_NPROC", os.cpu_count() or 4))
 # property -> engine, budgets (seconds of wall clock per worker), level
 PROPS = {
     "C01": dict(engine="wire", quick=40, thorough=600, level="exploration"),
+    "C02": dict(engine="wire", quick=40, thorough=600, level="exploration"),
+    "C03": dict(engine="wire", quick=40, thorough=600, level="exploration"),
+    "C06": dict(engine="wire", quick=40, thorough=600, level="exploration"),
 }
 
 ENGINES = {
@@ -211,8 +214,9 @@ def finish(prop, tier, seed, cfg, reports, trouble, wall, build_s):
         wall_s=round(wall, 2),
         violations=len(violations),
     )
-    os.makedirs(os.path.join(VERIF, "evidence"), exist_ok=True)
-    with open(os.path.join(VERIF, "evidence", prop + ".json"), "w") as f:
+    evdir = os.environ.get("VERIF_EVIDENCE_DIR", os.path.join(VERIF, "evidence"))
+    os.makedirs(evdir, exist_ok=True)
+    with open(os.path.join(evdir, prop + ".json"), "w") as f:
         json.dump(ev, f, indent=1, sort_keys=True)
     print("%s tier=%s seed=%d: %d runs (%d reached, %d distinct non-trivial logs), %.0f s simulated, %d decisions, wall %.1fs (build %.1fs)" % (
         prop, tier, seed, agg["runs"], agg["reached"], len(nth), agg["vtime_ns"] / 1e9, agg["steps"], wall, build_s))
@@ -222,6 +226,9 @@ def finish(prop, tier, seed, cfg, reports, trouble, wall, build_s):
         print("  features hit: " + ", ".join("%s=%d" % kv for kv in sorted(features.items())))
     for k in known_u:
         print("KNOWN-FINDING: property=%s %s" % (prop, k["what"]))
+    exh = counters.get("runs_step_budget_exhausted", 0)
+    if agg["runs"] and exh > 0.05 * agg["runs"]:
+        herrs.append("%d of %d runs exhausted their step budget (inconclusive runs)" % (exh, agg["runs"]))
     if herrs:
         for h in herrs[:5]:
             print("HARNESS-ERROR " + h)
